@@ -228,6 +228,17 @@ CLAIMED = {
              "assignment from Python are not exercised here. Known finding: negative operands of the scaling divisions (unsigned DIV).",
         technique="Coq proof over rationals (QArith) for all operand values + execution of real generated code in a kernel-validated ISA model",
         ref="7/C02"),
+    "C04": dict(
+        text="Theorems C04_locals_disjoint (ANY list of local declarations: pairwise disjoint byte ranges), C04_scratch_disjoint (get_stack scratch lies below "
+             "every local of the program), C04_array_vars_disjoint (ANY set of array-map variables), C04_store_frame (a store changes only its own bytes); "
+             "C04_refuted_subprogram_locals documents the open finding. Tie: for random declaration sets (main program, subprogram classes and instances, "
+             "locals and array-map variables of all formats) the REAL layout (descriptor addresses, collect positions, scratch address) must equal the "
+             "model's, and real generated programs that write one variable (constants and expressions of other variables) are executed in the "
+             "kernel-validated Coq ISA model: every other variable must keep its value.",
+        note=TB + "Partial: hash-map variables, Dict structures and packet variables are not covered (no hash map in the ISA model; packets: C07); temporaries "
+             "of expression evaluation are covered by execution only. Known finding: subprogram locals share their bytes (golden-pinned).",
+        technique="Coq proof by induction over declaration lists + layout comparison + execution of real generated programs in a kernel-validated ISA model",
+        ref="7/C04"),
 }
 
 REASONS_NOT_YET = "no check built yet in this round (planned, see DESIGN.md section 7); nothing is claimed for it"
